@@ -301,8 +301,7 @@ def run_atoms():
             if before < n and im != 'error':
                 errs.append('%d atoms before "--" for %s (needs %d) accepted' % (before, s, n))
             if before > n and im != 'error':
-                pending('F-C13-7', 'atoms-%d' % i, 'more atoms than the arity before "--" are accepted: the surplus '
-                        'and the delimiter become parameters (%s %r -> %s)' % (s, t, clip(dec(im), 200)))
+                errs.append('%d atoms before "--" for %s (needs %d) accepted: %s' % (before, s, n, clip(dec(im), 200)))
             chk.count('arity_delim_%s' % ('exact' if before == n else 'short' if before < n else 'excess'))
         chk.count('atoms_' + im.split()[0])
         chk.case('atoms-%d' % i, ln, im, mo, errs, '--' in t)
@@ -417,7 +416,7 @@ def run_subst():
 NATOMS = dict(TABLES['natoms'])
 BLOCK_SECTIONS = ['bonds', 'angles', 'dihedrals', 'constraints', 'pairs', 'impropers', 'exclusions',
                   'virtual_sitesn', 'position_restraints', 'virtual_sites2']
-LINK_SECTIONS = ['bonds', 'angles', 'dihedrals', 'constraints', 'impropers', 'exclusions', 'pairs']
+LINK_SECTIONS = ['bonds', 'angles', 'dihedrals', 'constraints', 'impropers', 'exclusions', 'pairs', 'pairs_nb']
 
 
 def prefix_of(order):
@@ -655,7 +654,7 @@ class Gen:
                     self.emit('ref%d' % r.randint(0, 5))
             else:
                 delete = kind == 'link' and r.random() < 0.2
-                sect = r.choice([s for s in LINK_SECTIONS if not (delete and s == 'dihedrals')])
+                sect = r.choice(LINK_SECTIONS)
                 n = NATOMS.get(sect)
                 self.header(('!' if delete else '') + sect)
                 if r.random() < 0.1:
@@ -673,7 +672,8 @@ class Gen:
                     delim = ['--'] if (n is None or r.random() < 0.4) else []
                     self.emit(' '.join(texts + delim + written + self.maybe_meta()),
                               linkinter=sect, natoms=n, nref=kk, delim=bool(delim))
-                    out_sect = 'impropers' if (sect == 'dihedrals' and expected and expected[0] == '2') else sect
+                    out_sect = 'impropers' if (sect == 'dihedrals' and not delete and expected
+                                               and expected[0] == '2') else sect
                     (removed if delete else inters).append([out_sect, keys, expected])
         exp_nodes = [[k, canon_attrs(v)] for k, v in nodes.items()]
         if kind == 'link':
@@ -718,7 +718,8 @@ class Gen:
         return [blocks, links, mods]
 
 
-FAULTS = ['unknown_section', 'undefined_atom', 'duplicate_atom', 'unbalanced_braces', 'order_conflict', 'arity']
+FAULTS = ['unknown_section', 'undefined_atom', 'duplicate_atom', 'unbalanced_braces', 'order_conflict', 'arity',
+          'index_zero']
 
 
 def inject(gen, fault, rng):
@@ -731,6 +732,13 @@ def inject(gen, fault, rng):
         return [t for t, _ in L[:i] + new + L[i:]]
     if fault == 'undefined_atom':
         c = idx(lambda t, tag: 'blockinter' in tag and tag['nref'] >= 1)
+        ends = [i for i in idx(lambda t, tag: 'blockatom' in tag)
+                if i + 1 == len(L) or 'blockatom' not in L[i + 1][1]]
+        if ends and (not c or rng.random() < 0.25):
+            # an [ edges ] line of a block naming an atom that is not declared
+            i = rng.choice(ends)
+            new = [('[ edges ]', {}), ('%s %s' % (L[i][1]['blockatom'], rng.choice(['ZZ9', 'Q'])), {})]
+            return [t for t, _ in L[:i + 1] + new + L[i + 1:]]
         if not c:
             return None
         i = rng.choice(c)
@@ -738,6 +746,17 @@ def inject(gen, fault, rng):
         toks = t.split(' ')
         j = rng.randrange(tag['nref'])
         toks[j] = rng.choice(['ZZ9', str(tag['natoms_block'] + rng.randint(1, 3)), 'Q'])
+        L[i] = (' '.join(toks), tag)
+        return [t for t, _ in L]
+    if fault == 'index_zero':
+        # known finding F-C13-4: the (1-based) atom index 0 in a block interaction
+        c = idx(lambda t, tag: 'blockinter' in tag and tag['nref'] >= 1)
+        if not c:
+            return None
+        i = rng.choice(c)
+        t, tag = L[i]
+        toks = t.split(' ')
+        toks[rng.randrange(tag['nref'])] = '0'
         L[i] = (' '.join(toks), tag)
         return [t for t, _ in L]
     if fault == 'duplicate_atom':
@@ -792,7 +811,11 @@ def inject(gen, fault, rng):
             blockatoms = [tg['blockatom'] for _, tg in L if tg.get('block') == tag['block'] and 'blockatom' in tg]
             names = blockatoms
         few = [rng.choice(names) for _ in range(n - 1)]
-        if rng.random() < 0.6 or n == 1:
+        if rng.random() < 0.3:
+            # too many atoms in front of an explicit delimiter
+            many = [rng.choice(names) for _ in range(n + rng.randint(1, 2))]
+            L[i] = (' '.join(many + ['--', '1', '0.2']), tag)
+        elif rng.random() < 0.6 or n == 1:
             L[i] = (' '.join(few + ['--', '1', '0.2']), tag)
         else:
             L[i] = (' '.join(few), tag)
@@ -844,6 +867,36 @@ def scan_text(lines):
     return decls
 
 
+def index_zero_signature(lines, ff):
+    """signature of F-C13-4: a block interaction line refers to an atom by the index 0 and the loaded
+    interaction names the last atom of the block (or that block was replaced by a later declaration of
+    the same name, so that only the acceptance of the index is observable)"""
+    sec, top, names, zero_blocks = None, None, [], set()
+    for raw in lines:
+        t = raw.split(';', 1)[0].strip()
+        if t.startswith('[') and t.endswith(']'):
+            name = t.strip('[ ]').casefold()
+            if name in ('moleculetype', 'link', 'modification', 'macros', 'variables', 'citations'):
+                top, sec = name, None
+                if name == 'moleculetype':
+                    names.append(None)
+            else:
+                sec = name
+        elif t and top == 'moleculetype' and sec is None and names and names[-1] is None:
+            names[-1] = t.split()[0]
+        elif t and top == 'moleculetype' and sec not in (None, 'atoms', 'edges', 'citation', 'meta'):
+            toks = t.split('--')[0].split()
+            n = NATOMS.get(sec)
+            if '0' in (toks[:n] if n is not None else toks):
+                zero_blocks.add(len(names) - 1)
+    if not zero_blocks or ff is None:
+        return False
+    if any(names[k] in names[k + 1:] for k in zero_blocks):
+        return True
+    return any(list(b.nodes)[-1] in it.atoms for b in ff.blocks.values() if len(b.nodes)
+               for its in b.interactions.values() for it in its)
+
+
 def check_once_in_order(lines, ff):
     """declared-once-in-order stated on the file text and the loaded library only"""
     errs = []
@@ -866,13 +919,17 @@ def check_once_in_order(lines, ff):
 _CORPUS = json.load(open(os.path.join(VERIF, 'corpus', 'c13_cases.json')))
 CORPUS_FF = [tuple(x) for x in _CORPUS['ff']]
 QUIRKS_FF = [tuple(x) for x in _CORPUS['quirks']]
+OBS_FF = [tuple(x) for x in _CORPUS.get('observations', [])]
 
 
 def run_ff():
     rng = chk.rng('ff')
     cases = []          # (cid, lines, expected dump or None (= must raise) or 'model-only', nontrivial, fault)
-    for cid, text, nlinks in CORPUS_FF:
-        cases.append(('ff-corpus-' + cid, text.split('\n'), 'scan' if nlinks is not None else None, True, None, nlinks))
+    for cid, text, nlinks, *dump in CORPUS_FF:
+        cases.append(('ff-corpus-' + cid, text.split('\n'), 'scan' if nlinks is not None else None, True, None,
+                      (nlinks, dump[0] if dump else None)))
+    for cid, text, note in OBS_FF:
+        cases.append(('ff-' + cid, text.split('\n'), 'observation', True, None, note))
     for fid, text, what in QUIRKS_FF:
         cases.append(('ff-quirk-' + fid, text.split('\n'), 'quirk', True, None, (fid, what)))
     N = 6000 if chk.thorough else 700
@@ -898,6 +955,11 @@ def run_ff():
         else:
             got = dump_ff(ff)
             im = enc(got)
+        if exp is None and fault == 'index_zero' and ff is not None and index_zero_signature(ls, ff):
+            chk.count('fault_index_zero_ACCEPTED_known')
+            chk.case(cid, ln, im, mo, ['atom index 0 of a block interaction was loaded as the last atom'], True,
+                     finding='F-C13-4' if 'F-C13-4' in KNOWN_IDS else None)
+            continue
         if exp is None:
             if ff is not None:
                 errs.append('malformed input (%s) was loaded instead of rejected' % (fault or cid))
@@ -907,11 +969,15 @@ def run_ff():
                 errs.append('well-formed file rejected with %s' % exc)
             else:
                 errs += check_once_in_order(ls, ff)
-                if len(ff.links) != extra:
-                    errs.append('%d links loaded, %d declared' % (len(ff.links), extra))
+                if len(ff.links) != extra[0]:
+                    errs.append('%d links loaded, %d declared' % (len(ff.links), extra[0]))
+                if extra[1] is not None and got != extra[1]:
+                    errs.append('loaded %s, declared %s' % (clip(got, 400), clip(extra[1], 400)))
+        elif exp == 'observation':
+            chk.count('observation_' + ('rejected' if ff is None else 'loaded'))
         elif exp == 'quirk':
             fid, what = extra
-            if fid in KNOWN_IDS:
+            if fid in KNOWN_IDS and (fid != 'F-C13-4' or index_zero_signature(ls, ff)):
                 chk.case(cid, ln, im, mo, [what], True, finding=fid)
                 continue
             pending(fid, cid, what + ' -> ' + clip(im if ff is None else got, 300))
